@@ -6,11 +6,18 @@
                   <m> (<reqIdHex> <seq> <payloadHex | ~> <final 0|1> <err 0|1>){m}
             (payload = the harness's canonical digest of the payload-or-error;
              `~` = no payload; the expected one is that of the standalone operation)
+            itrace <cap> <ending: eof | cut | readerr> <k> (<o | b> <reqIdHex> <payloadHex | ->){k}
+                   <m> (…observed responses as above…){m}
+            the RAW input (Model/BulkInput.lean): every value of the stream in order — `o` a
+            complete request, `b` a value the decode fails on with the request id it leaves —
+            also the values after the first failure, and how the bytes end; the driver runs
+            `Bulk.parse` itself, so the number of complete requests and the tail are the model's
   response: ok accept | ok reject <first reason>    (reasons are diagnostics only;
             the verdict is `validTrace`, proved in Props/C15.lean to accept exactly
             the traces of the dispatcher model)
 -/
 import GoblVerif.Model.Bulk
+import GoblVerif.Model.BulkInput
 import Driver.Proto
 
 namespace Driver.C15
@@ -43,6 +50,24 @@ def parseResps : Nat → List String → Option (List R × List String)
     let (rs, rest') ← parseResps n rest
     pure (⟨id, seq, pl, fin, err⟩ :: rs, rest')
   | _, _ => none
+
+def parseItems : Nat → List String → Option (List (Item String) × List String)
+  | 0, rest => some ([], rest)
+  | n + 1, k :: a :: b :: rest => do
+    let id ← unhexStr a
+    let (is, rest') ← parseItems n rest
+    if k == "o" then
+      let p ← unhexStr b
+      pure (.ok ⟨id, p⟩ :: is, rest')
+    else if k == "b" then pure (.broken id :: is, rest')
+    else none
+  | _, _ => none
+
+def parseEnding : String → Option Ending
+  | "eof" => some .eof
+  | "cut" => some .cut
+  | "readerr" => some .readError
+  | _ => none
 
 /-- diagnostics for a rejected trace (not part of the verdict) -/
 def reason (c : Cfg String String) (obs : List R) : String :=
@@ -81,6 +106,21 @@ def handle (toks : List String) : String :=
           | _ => "bad-resps"
         | none => "bad-m"
       | _ => "bad-reqs"
+    | _, _, _ => "bad-args"
+  | "itrace" :: cap :: ending :: k :: rest =>
+    match parseNat? cap, parseEnding ending, parseNat? k with
+    | some cap, some e, some k =>
+      match parseItems k rest with
+      | some (items, m :: rest') =>
+        match parseNat? m with
+        | some m =>
+          match parseResps m rest' with
+          | some (obs, []) =>
+            let c : Cfg String String := Cfg.ofInput items e (fun r => r.body) cap
+            if validTrace c obs then "ok accept" else s!"ok reject {reason c obs}"
+          | _ => "bad-resps"
+        | none => "bad-m"
+      | _ => "bad-items"
     | _, _, _ => "bad-args"
   | _ => "bad-op"
 
